@@ -358,7 +358,47 @@ Named = Annotated[List[int], type_name("IntList")]
 class HoldsNamed:
     l1: Named
     l2: Named
+@discriminator("kind")
+class Pet:
+    pass
+@dataclass
+class Cat(Pet):
+    n: int = 0
+@dataclass
+class Dog(Pet):
+    n: int = 1
+@dataclass
+class Owner:
+    pets: List[Pet] = field(default_factory=list)
+    best: Optional[Cat] = None
+DiscAnn = Annotated[Union[A, Anon2], discriminator("type")] if False else None
+@dataclass
+class RecProps:
+    a: int = 0
+    rest: Mapping[str, "RecProps"] = field(default_factory=dict, metadata=properties)
+@dataclass
+class RecPattern:
+    a: int = 0
+    pat: Mapping[str, List["RecPattern"]] = field(default_factory=dict, metadata=properties(pattern="^p"))
+class Opaque:
+    pass
+@dataclass
+class Bad:
+    x: Opaque
+@dataclass
+class HoldsBadUnion:
+    u: Union[Bad, int] = 0
+    l: List[Union[int, Bad]] = field(default_factory=list)
 EXPECT = {
+    "Pet": (Pet, {"Pet", "Cat", "Dog"}, {"Pet", "Cat", "Dog"}),
+    "Cat": (Cat, {"Pet"}, {"Pet", "Cat"}),
+    "CatOrDog": (Union[Cat, Dog], {"Pet", "Cat", "Dog"}, {"Pet", "Cat", "Dog"}),
+    "ListPet": (List[Pet], {"Pet", "Cat", "Dog"}, {"Pet", "Cat", "Dog"}),
+    "Owner": (Owner, {"Pet", "Cat", "Dog"}, {"Owner", "Pet", "Cat", "Dog"}),
+    "RecProps": (RecProps, {"RecProps"}, {"RecProps"}),
+    "RecPattern": (RecPattern, {"RecPattern"}, {"RecPattern"}),
+    "BadUnion": (Union[Bad, int], set(), set()),
+    "HoldsBadUnion": (HoldsBadUnion, set(), {"HoldsBadUnion"}),
     "HoldsA": (HoldsA, {"Renamed"}, {"HoldsA", "Renamed"}),
     "HoldsBox": (HoldsBox, {"Box_int"}, {"HoldsBox", "Box_int", "Box_str"}),
     "HoldsAnon": (HoldsAnon, set(), {"HoldsAnon"}),
@@ -389,7 +429,7 @@ def run_worlds(st: infra.Stats):
                     check_schema_doc(s, vname, True, st, base, external, prefix)
                     defs_key = "definitions" if vname == "draft-07" else "$defs"
                     names = set(s.get(defs_key, {})) if external is None else set(external)
-                    root = tp.__name__
+                    root = getattr(tp, "__name__", "-")
                     st.case("world", name, fn.__name__, all_refs, vname, tuple(sorted(names)))
                     if names != exp and names != exp - {root} and names != exp | {root}:
                         st.violation(dict(base, signature={"kind": "world_definitions", "world": name, "all_refs": all_refs}, what=f"{name}: definitions {sorted(names)} expected {sorted(exp)}", schema=json.dumps(s)[:1000]))
